@@ -174,6 +174,9 @@ namespace {
                 record(idx, a, "hinted");
                 for (int y = 0; y <= yields; y++)
                 {
+                    // every phase - also after a suspension - runs on a worker of the pool the task was sent to
+                    VH_CHECK(pool_index_here() == a, "C10.wrong_pool", "op %d: phase %d of a task sent to pool %d (%s) runs on pool %d", idx, y, a,
+                        pools[(size_t) a].name.c_str(), pool_index_here());
                     if (must_stay)
                     {
                         VH_CHECK((int) pika::get_local_worker_thread_num() == hint, "C10.hint_not_honoured",
